@@ -1,6 +1,11 @@
-"""E9: the step/reset pipeline of PrimaiteGymEnv and PrimaiteGame as ordered event lists, and calculate_truncated
-translated to a Lean function. Pure ast."""
+"""E9: the step/reset pipeline of PrimaiteGymEnv, PrimaiteRayMARLEnv and PrimaiteGame as ordered event lists,
+calculate_truncated translated to a Lean function, and the shape of one history record (fields of AgentHistoryItem, the
+keyword arguments of its single construction site, the Literal of RequestResponse.status, who overrides the methods that
+write the history). Pure ast."""
 import ast
+from pathlib import Path
+
+from harness.lib.core import SRC
 
 from harness.extract.pyexpr import translate_function
 from harness.extract.util import class_def, find_method, parse
@@ -80,7 +85,8 @@ def emit() -> str:
 
     def r_reset(name, node):
         if name == "from_config":
-            return "from_config(" + ", ".join(ast.unparse(k.value).replace("self.", "") for k in node.keywords) + ")"
+            return "from_config(" + ", ".join([ast.unparse(a).replace("self.", "") for a in node.args]
+                                              + [ast.unparse(k.value).replace("self.", "") for k in node.keywords]) + ")"
         return name
     reset = _calls_in_order(find_method(gym, "reset"), {"from_config", "setup_for_episode", "get_sim_state", "update_agents", "_get_obs"}, r_reset)
     reset = [x for x in reset if not x.startswith("total_reward_per_episode")]
@@ -88,6 +94,76 @@ def emit() -> str:
     appends = sum(1 for n in ast.walk(par) if isinstance(n, ast.Call) and ast.unparse(n.func) == "self.history.append")
     trunc = translate_function(find_method(pg, "calculate_truncated"), "calculateTruncated", "(stepCounter maxLen : Nat)",
                                {"self.step_counter": ("stepCounter", "nat"), "self.options.max_episode_length": ("maxLen", "nat")}, "Bool")
+    # ---- the MARL environment drives the same game methods in the same order (the rig's MarlDriver mirrors it)
+    ray = parse("session/ray_envs.py")
+    marl = class_def(ray, "PrimaiteRayMARLEnv")
+    interesting = {"store_action", "pre_timestep", "apply_agent_actions", "advance_timestep", "get_sim_state", "update_agents", "_get_obs",
+                   "calculate_truncated", "apply_timestep", "apply_request", "reset"}
+    marl_step = _calls_in_order(find_method(marl, "step"), interesting)
+    # calculate_truncated is called once per RL agent and once for "__all__": collapse repetitions
+    marl_step = [x for i, x in enumerate(marl_step) if i == 0 or marl_step[i - 1] != x]
+    marl_reset = _calls_in_order(find_method(marl, "reset"), {"from_config", "setup_for_episode", "get_sim_state", "update_agents", "_get_obs"}, r_reset)
+    marl_term = None
+    for n in ast.walk(find_method(marl, "step")):
+        if isinstance(n, ast.Assign) and ast.unparse(n.targets[0]) == "terminateds" and isinstance(n.value, ast.DictComp):
+            if isinstance(n.value.value, ast.Constant) and isinstance(n.value.value.value, bool):
+                marl_term = n.value.value.value
+    if marl_term is None:
+        raise ValueError("`terminateds = {name: <bool literal> …}` not found in PrimaiteRayMARLEnv.step")
+    # ---- PrimaiteGame.step(): the loop for scripted agents only
+    def r_gs(name, node):
+        return name
+    game_step = _calls_in_order(find_method(pg, "step"), {"pre_timestep", "get_sim_state", "update_observation", "apply_agent_actions",
+                                                          "advance_timestep", "update_agents"}, r_gs)
+    # ---- one history record
+    item = class_def(iface, "AgentHistoryItem")
+    fields = []
+    for st in item.body:
+        if isinstance(st, ast.AnnAssign) and isinstance(st.target, ast.Name):
+            fields.append((st.target.id, ast.unparse(st.annotation), st.value is not None))
+        elif isinstance(st, ast.Expr) and isinstance(st.value, ast.Constant) and isinstance(st.value.value, str):
+            continue
+        else:
+            raise ValueError(f"unrecognised statement in AgentHistoryItem: {ast.unparse(st)[:60]}")
+    ctor = [n for n in ast.walk(par) if isinstance(n, ast.Call) and ast.unparse(n.func) == "AgentHistoryItem"]
+    if len(ctor) != 1 or ctor[0].args:
+        raise ValueError("process_action_response does not construct exactly one AgentHistoryItem by keywords")
+    ctor_kw = [(k.arg, ast.unparse(k.value)) for k in ctor[0].keywords]
+    par_body = [st for st in par.body if not (isinstance(st, ast.Expr) and isinstance(st.value, ast.Constant))]
+    if len(par_body) != 1 or not (isinstance(par_body[0], ast.Expr) and isinstance(par_body[0].value, ast.Call)
+                                  and ast.unparse(par_body[0].value.func) == "self.history.append"
+                                  and par_body[0].value.args and par_body[0].value.args[0] is ctor[0]):
+        raise ValueError("process_action_response is not the single statement self.history.append(AgentHistoryItem(…))")
+    save = find_method(class_def(iface, "AbstractAgent"), "save_reward_to_history")
+    save_body = [ast.unparse(st) for st in save.body if not (isinstance(st, ast.Expr) and isinstance(st.value, ast.Constant))]
+    req = parse("interface/request.py")
+    rr = class_def(req, "RequestResponse")
+    status = None
+    for st in rr.body:
+        if isinstance(st, ast.AnnAssign) and isinstance(st.target, ast.Name) and st.target.id == "status":
+            ann = st.annotation
+            if isinstance(ann, ast.Subscript) and ast.unparse(ann.value) == "Literal":
+                elts = ann.slice.elts if isinstance(ann.slice, ast.Tuple) else [ann.slice]
+                status = [e.value for e in elts if isinstance(e, ast.Constant) and isinstance(e.value, str)]
+                if len(status) != len(elts):
+                    raise ValueError("RequestResponse.status Literal has non-string members")
+    if status is None:
+        raise ValueError("RequestResponse.status is not annotated with a Literal[...]")
+    strict = any(isinstance(st, ast.Assign) and ast.unparse(st.targets[0]) == "model_config" and "extra='forbid'" in ast.unparse(st.value)
+                 for st in rr.body)
+    # ---- who else defines the methods that write the history (an override could skip the append)
+    overriders = []
+    for f in sorted((SRC / "game").rglob("*.py")) + sorted((SRC / "session").rglob("*.py")):
+        tree = ast.parse(f.read_text())
+        for c in ast.walk(tree):
+            if isinstance(c, ast.ClassDef):
+                for m in c.body:
+                    if isinstance(m, ast.FunctionDef) and m.name in ("process_action_response", "save_reward_to_history") \
+                            and not (c.name == "AbstractAgent" and f.name == "interface.py"):
+                        overriders.append(f"{c.name}.{m.name}")
+
+    def pairs(xs):
+        return "[" + ", ".join('("' + a.replace('"', "'") + '", "' + b.replace('"', "'") + '")' for a, b in xs) + "]"
     return f"""namespace Primaite.Gen.Episode
 /-- method calls of `PrimaiteGymEnv.step`, in source order -/
 def stepPipeline : List String := {_lean_list(step_calls)}
@@ -104,5 +180,25 @@ def resetPipeline : List String := {_lean_list(reset)}
 def historyAppendsPerResponse : Nat := {appends}
 /-- `PrimaiteGame.calculate_truncated`, translated statement by statement -/
 {trunc}
+/-- method calls of `PrimaiteRayMARLEnv.step` (repetitions of one call collapsed) and `.reset`, in source order -/
+def marlStepPipeline : List String := {_lean_list(marl_step)}
+def marlResetPipeline : List String := {_lean_list(marl_reset)}
+def marlTerminatedLiteral : Bool := {"true" if marl_term else "false"}
+/-- `PrimaiteGame.step` (scripted agents only): calls and the step-0 guard, in source order -/
+def gameStepPipeline : List String := {_lean_list(game_step)}
+/-- fields of `AgentHistoryItem` (name, annotation) and whether each has a default -/
+def historyItemFields : List (String × String) := {pairs([(a, b) for a, b, _ in fields])}
+def historyItemRequired : List String := {_lean_list([a for a, _, d in fields if not d])}
+/-- keyword arguments of the single `AgentHistoryItem(...)` in `AbstractAgent.process_action_response` (its only statement is
+`self.history.append(<that call>)`) -/
+def historyItemConstruction : List (String × String) := {pairs(ctor_kw)}
+/-- body of `AbstractAgent.save_reward_to_history` -/
+def saveRewardBody : List String := {_lean_list(save_body)}
+/-- members of the `Literal[...]` that annotates `RequestResponse.status`; the model forbids extra fields -/
+def responseStatusLiteral : List String := {_lean_list(status)}
+def responseModelForbidsExtra : Bool := {"true" if strict else "false"}
+/-- classes under game/ and session/ (other than AbstractAgent itself) that define `process_action_response` or
+`save_reward_to_history` -/
+def historyWriterOverrides : List String := {_lean_list(overriders)}
 end Primaite.Gen.Episode
 """
